@@ -32,7 +32,7 @@ PROPS["C02"] = {
         {"pkg": "app", "name": "VerifC02_Table", "quick": {}, "thorough": {}, "reach": ["end", "restart.taken", "restart.refused"],
          "bounds": {"policy": "arbitrary string len<=16", "max_restarts": "[0,2^31]", "restarts": "[0,2^31]", "exit_code": "full int64",
                     "backoff_seconds": "[-2^31,2^31]"}},
-        {"pkg": "app", "name": "VerifC02_Loop", "quick": {"d": 1}, "thorough": {"d": 2}, "reach": ["end", "relaunch"],
+        {"pkg": "app", "name": "VerifC02_Loop", "quick": {"d": 1}, "thorough": {"d": 2}, "replay_repeat": 3, "reach": ["end", "relaunch"],
          "bounds": {"attempts": "<=4 scripted exits (codes 0/3 per attempt), then runs until stopped", "policy": "no/always/on_failure/exit_on_failure",
                     "max_restarts": "{0,1,2}", "backoff_seconds": "{0,2}", "stop request": "none or one, at any labelled instant"}},
     ],
@@ -124,4 +124,14 @@ PROPS["C19"] = {
     ],
     "stubs": ["gin.Context.JSON / ShouldBindJSON / DefaultQuery (recording; natively the real gin test context is used)", "IProject: recording stub with symbolic outcomes"],
     "assumptions": ["gin routing, HTTP transport, JSON encoding/decoding and the whole client package are outside the claim"],
+}
+
+PROPS["C03"] = {
+    "harnesses": [
+        {"pkg": "app", "name": "VerifC03_Project", "quick": {"d": 1}, "thorough": {"d": 2}, "replay_repeat": 8, "reach": ["end", "run.returned", "shutdown.returned"],
+         "bounds": {"N": 2, "shapes": "independent / b after a started / b after a completed", "policy of a": "no/always",
+                    "a": "exits by itself or runs until stopped", "shutdown instant": "every labelled life-cycle point of a or b (27 alternatives)"}},
+    ],
+    "stubs": ["Commander: vCmd (reacts to the signal; exit latency eager)"],
+    "assumptions": ["children react to the stop signal", "preemption only at labelled yield points and blocking operations"],
 }
